@@ -226,7 +226,15 @@ where
         let mut chooser_state = chooser.new_state(seed);
 
         let mut state = {
-            let mut initial_states = model.init_states();
+            // Like the other checkers, only start from initial states within the boundary.
+            let mut initial_states: Vec<_> = model
+                .init_states()
+                .into_iter()
+                .filter(|s| model.within_boundary(s))
+                .collect();
+            if initial_states.is_empty() {
+                return;
+            }
             let index = chooser.choose_initial_state(&mut chooser_state, &initial_states);
             initial_states.swap_remove(index)
         };
@@ -379,6 +387,12 @@ where
                         log::trace!("No next state");
                     }
                     Some(next_state) => {
+                        if !model.within_boundary(&next_state) {
+                            // A state outside the boundary is not a successor (and does not make
+                            // the current state terminal), try and choose another
+                            log::trace!("Next state outside of boundary");
+                            continue;
+                        }
                         // now clear the actions for the next round
                         actions.clear();
                         state = next_state;
